@@ -30,7 +30,22 @@ class FS:
             raise self.fault_exc
 
 
+class Empty:
+    """h5py.Empty: an attribute/dataset without a value"""
+    def __init__(self, dtype="f"):
+        self.dtype = dtype
+
+    def __eq__(self, o):
+        return isinstance(o, Empty)
+
+    __hash__ = object.__hash__
+
+
 class Attrs(dict):
+    def update(self, other=(), **kw):
+        for k, v in dict(other, **kw).items():
+            self[k] = v
+
     def __setitem__(self, k, v):
         if v is None:
             raise TypeError("Object dtype dtype('O') has no native HDF5 equivalent")
@@ -112,6 +127,14 @@ class Group:
         g, leaf = self._resolve(name)
         del g.items_[leaf]
 
+    def require_group(self, name):
+        if name in self:
+            return self[name]
+        return self.create_group(name)
+
+    def items(self):
+        return self.items_.items()
+
 
 class File(Group):
     def __init__(self, fs, path, mode="r", libver=None):
@@ -119,6 +142,13 @@ class File(Group):
         self.path, self.mode = path, mode
         self.is_open = False
         self.swmr_mode = False
+
+    def __enter__(self):
+        return self
+
+    def __exit__(self, *a):
+        self.close()
+        return False
 
     def close(self):
         self.fs.op(f"close {self.path}")
@@ -135,6 +165,7 @@ class H5:
     """object bound to `h5py` in instrumented modules"""
     Group = Group
     Dataset = Dataset
+    Empty = Empty
 
     def __init__(self, fs):
         self.fs = fs
